@@ -112,11 +112,14 @@ CHECKS.update({
                "(A) every exported program x document through sync and 5 async entry points, plain and async-wrapped documents; (B) all interleavings of 2-3 concurrent evaluations",
                "Trusted: the deterministic scheduler (send(None)) as a stand-in for an event loop; identity observed with `is`.",
                "sync/async twins compared over TLC-exported programs; TLC-enumerated schedules replayed by resuming real coroutines in that order", "5 (C08)"),
-    "C09": _mc("the lazy-iterator / memo-cell machine (spec/MC_Sessions.tla)",
+    "C09": _mc("the lazy-iterator / memo-cell machine (spec/MC_Sessions.tla) and the thread machine (spec/MC_Threads.tla)",
                "all interleavings of open/next/close on lazy iterators, one-shot evaluations and re-compilation; SchedIndependence, CacheTransparency, OneWriter; "
-               "the wrong design SharedCells=TRUE is refuted by TLC on every run",
-               "Trusted: the abstraction of a resolution's cells as 'root and context captured at the first candidate'; interleaving at next() granularity only.",
-               "TLA+ model of lazy iterators and per-resolution memo cells model-checked with TLC; histories replayed into real generators with caching on and off", "5 (C09)"),
+               "the wrong design SharedCells=TRUE is refuted by TLC on every run; thread schedules at the grain of one library source line (every single pre-emption "
+               "point, two pre-emptions on a grid, random bursts; the wrong design SharedScratch=TRUE refuted on every run) run with real threads under a deterministic line scheduler",
+               "Trusted: the abstraction of a resolution's cells as 'root and context captured at the first candidate'; iterators interleaved at next() granularity, "
+               "threads at source-line granularity (not between the bytecodes of one line).",
+               "TLA+ model of lazy iterators, per-resolution memo cells and pre-emptive threads model-checked with TLC; histories replayed into real generators with caching "
+               "on and off, thread schedules replayed with real threads under a line-grain scheduler, memo-cell hook events validated by a TLC trace specification", "5 (C09)"),
     "C17": _mc("the token-assignment universe (spec/MC_Tokens.tla, Render.tla token styles)",
                "every ordered pair of identifiers x ordered pair of spellings (prefix-related, multi-character, non-ASCII) x programs using every identifier",
                "Trusted: the meaning of a program does not mention spellings (by construction of JsonPath.tla); renderer.",
